@@ -67,6 +67,9 @@ var c12Classes = [][]string{
 	{"é", "É", "e", "é"},
 	{"ǅ", "ǆ", "Ǆ"},
 	{"\\]", "\\]"}, {"\\[", "\\["}, {"*", "*"}, {"!", "!"}, {"x", "X"},
+	// a literal backslash in front of white space (also as the last thing in the label),
+	// an escaped backslash, an escaped punctuation character
+	{"\\ ", "\\\t", "\\\n", "\\ "}, {"\\\\", "\\\\"}, {"\\!", "\\!", "!"},
 }
 var c12WS = []string{" ", " ", "\t", "\n", "  ", " \n ", "\t \t", " ", " ", ""}
 
@@ -114,6 +117,25 @@ func validLabel(l string) bool {
 		}
 		if strings.HasPrefix(t, "*") {
 			return false // would start a bullet list item and end the paragraph
+		}
+	}
+	return true
+}
+
+// labelClosesWhereWritten reports whether "[" + l + "]" is a label whose content is l:
+// no unescaped bracket inside, and the closing bracket is not escaped by a trailing backslash.
+func labelClosesWhereWritten(l string) bool {
+	for i := 0; i < len(l); i++ {
+		switch l[i] {
+		case '[', ']':
+			return false
+		case '\\':
+			if i+1 == len(l) {
+				return false // would escape the closing bracket
+			}
+			if strings.IndexByte("!\"#$%&'()*+,-./:;<=>?@[\\]^_`{|}~", l[i+1]) >= 0 {
+				i++
+			}
 		}
 	}
 	return true
@@ -254,7 +276,7 @@ func (c12) Check(ctx *core.Ctx, c *core.Case) {
 				return
 			}
 			l := body[len(pre) : len(body)-len(suf)]
-			if !validLabel(l) || strings.ContainsAny(strings.ReplaceAll(strings.ReplaceAll(l, "\\]", ""), "\\[", ""), "[]") {
+			if !validLabel(l) || !labelClosesWhereWritten(l) {
 				ctx.Skip("not_generator_shape")
 				return
 			}
@@ -280,7 +302,7 @@ func (c12) Check(ctx *core.Ctx, c *core.Case) {
 			}
 			id, _ := strconv.Atoi(raw[i+5 : i+6])
 			raw = raw[1:i]
-			if !validLabel(raw) || strings.ContainsAny(strings.ReplaceAll(strings.ReplaceAll(raw, "\\]", ""), "\\[", ""), "[]") {
+			if !validLabel(raw) || !labelClosesWhereWritten(raw) {
 				ctx.Skip("not_generator_shape")
 				return
 			}
